@@ -55,6 +55,7 @@ type Ctx struct {
 	Analysed map[string]bool // functions analysed
 	Explain  string
 	SelfTest []SelfTestResult
+	Robust   map[string]any
 }
 
 func (c *Ctx) add(rule, construct string, st Status, pos string, msg string) {
@@ -266,6 +267,7 @@ func (c *Ctx) finish(verifDir string, t0 time.Time, seed int) int {
 			"notes":               nonNil(append(c.Notes, c.P.LoadNotes...)),
 			"broken":              nonNil(broken),
 			"rule_self_test":      selfTestSummary(c.SelfTest),
+			"rename_robustness":   robustOrEmpty(c.Robust),
 			"checker_cmd":         "engine/junocheck -prop " + c.Prop + " -tier " + c.Tier,
 			"trusted_base":        []string{"go/types, go/ssa, go/callgraph/vta of golang.org/x/tools v0.50.0", "hand-confirmed rule tables in /verif/engine", "not followed: reflection, unsafe, cgo, assembly, goroutine interleavings"},
 			"exhaustive":          false,
@@ -290,6 +292,13 @@ func (c *Ctx) finish(verifDir string, t0 time.Time, seed int) int {
 		return 1
 	}
 	return 0
+}
+
+func robustOrEmpty(m map[string]any) map[string]any {
+	if m == nil {
+		return map[string]any{"what": "thorough tier only"}
+	}
+	return m
 }
 
 func selfTestSummary(rs []SelfTestResult) map[string]any {
